@@ -204,7 +204,12 @@ pub fn point(rng: &mut Rng, fr: &Frame, class: &str) -> (f64, f64) {
         "axes" => {
             // on / next to the special coordinate values: the equator, the meridians 0, +-90, +-180 (loci that mean nothing to
             // the grid but are where clean-up code for zeros and quadrant boundaries lives)
-            let eps = if rng.chance(0.1) { 0.0 } else { rng.log10(0.0, 15.0) } * rng.sign();
+            // offsets: exactly zero (of either sign), the smallest magnitudes a double can hold, or 1e-15 .. 1 degrees
+            let eps = match rng.below(12) {
+                0 => 0.0,
+                1 => *rng.pick(&[5e-324, 1e-310, 1e-300, 2.2250738585072014e-308, 1e-200, 1e-100, 1e-30]),
+                _ => rng.log10(0.0, 15.0),
+            } * rng.sign();
             if rng.chance(0.5) {
                 (rng.range(-180.0, 180.0), eps)
             } else {
@@ -476,6 +481,33 @@ pub fn cell_set(rng: &mut Rng, flavour: &str) -> Vec<MCell> {
                         out.push(e);
                     }
                 }
+            }
+            out.sort();
+            out.dedup();
+        }
+        "ends" => {
+            // pairs that are neighbours in id order but far apart in the tree: the last cell of a quintant and the first of the
+            // next, the last cell of a face and the first of the next face, the very first and the very last cell of a
+            // resolution - together with a few ordinary cells. Nothing here forms a sibling group.
+            let res = 2 + rng.below(28) as i32;
+            let last_s = (1u64 << (2 * (res - 1))) - 1;
+            for _ in 0..1 + rng.below(4) {
+                let k = rng.below(60) as u8;
+                let (f, q) = (k / 5, k % 5);
+                out.push(MCell::new(res, f, q, last_s));
+                let n = (k + 1) % 60;
+                out.push(MCell::new(res, n / 5, n % 5, 0));
+                if rng.chance(0.5) {
+                    out.push(MCell::new(res, f, q, last_s - 1 - rng.below(3)));
+                    out.push(MCell::new(res, n / 5, n % 5, 1 + rng.below(3)));
+                }
+            }
+            if rng.chance(0.3) {
+                out.push(MCell::new(res, 0, 0, 0));
+                out.push(MCell::new(res, 11, 4, last_s));
+            }
+            for _ in 0..rng.below(4) {
+                out.push(random_cell(rng, res));
             }
             out.sort();
             out.dedup();
